@@ -54,7 +54,13 @@ BSleepExc == -4   \* "id" of the exception object raised by before_sleep
 
 CancelOuts == {"cancel", "kbd", "sysexit", "nested"}
 \* ways an attempt can end that M offers (the fault drivers add others: GeneratorExit, ...)
-ModelledOuts == {"ok", "exc", "excsame", "res", "abort"} \cup CancelOuts
+ModelledOuts == {"ok", "exc", "excsame", "hang", "res", "abort"} \cup CancelOuts
+\* "hang": the operation does not come back; attempt_timeout_s (ATimeout ticks in every run that
+\* offers this outcome) fires and the runner ends the attempt itself with a TimeoutError of its own
+\* making: an exception-caused failure that the classifier sees like any foreign exception
+\* (UNKNOWN, no hint), observed exactly ATimeout ticks after the attempt began
+ExcOuts == {"exc", "excsame", "hang"}
+ATimeout == 2
 
 (***************************************************************************)
 (* Configuration c:                                                        *)
@@ -201,16 +207,17 @@ PollTop(c, s) ==
 
 Invoke(c, s) ==
     IF (s.pc = "top" /\ ~c.abort /\ ~c.hooks) \/ s.pc = "invoke" THEN
-        { <<EvInvoke(s.att, s.now, o.out, o.k, o.ra, d),
+        { LET o == od[1]  d == od[2] IN
+          <<EvInvoke(s.att, s.now, o.out, o.k, o.ra, d),
             LET obj == IF o.out = "excsame" /\ s.eobj # None THEN s.eobj ELSE s.att
                 s1 == [s EXCEPT !.now = s.now + d, !.ninv = s.att,
-                                !.eobj = IF o.out \in {"exc", "excsame"} THEN obj ELSE @,
+                                !.eobj = IF o.out \in ExcOuts THEN obj ELSE @,
                                 !.cobj = obj,
                                 !.ck = o.k, !.cra = o.ra, !.cout = o.out,
-                                !.ccause = IF o.out \in {"exc", "excsame"} THEN "exception"
+                                !.ccause = IF o.out \in ExcOuts THEN "exception"
                                            ELSE IF o.out = "res" THEN "result" ELSE "-"]
             IN  CASE o.out = "ok"    -> [s1 EXCEPT !.pc = IF c.rc THEN "rcl_ok" ELSE "succ"]
-                  [] o.out \in {"exc", "excsame"} ->
+                  [] o.out \in ExcOuts ->
                         \* "excsame": the operation raises the very object it raised last time
                         [s1 EXCEPT !.pc = IF c.abort THEN "pollfail" ELSE "classify"]
                   [] o.out = "res"   -> [s1 EXCEPT !.pc = "rcl_res"]
@@ -219,7 +226,10 @@ Invoke(c, s) ==
                         ViaEnd(c, [s1 EXCEPT !.abn = s.att, !.own = TRUE, !.absrc = "own"],
                                "aborted", "ABORTED", "-", None, "abortemit")
                   [] o.out \in CancelOuts -> [s1 EXCEPT !.pc = "deliver", !.dkind = "cancel"]>>
-          : o \in {x \in Outs : x.out \in ModelledOuts /\ (x.out = "res" => c.rc)}, d \in Durs }
+          : od \in { p \in {x \in Outs : x.out \in ModelledOuts /\ (x.out = "res" => c.rc)
+                                          /\ (x.out = "hang" => x.k = "UNKNOWN" /\ x.ra = None)}
+                              \X (Durs \cup {ATimeout}) :
+                      IF p[1].out = "hang" THEN p[2] = ATimeout ELSE p[2] \in Durs } }
     ELSE {}
 
 RClassify(c, s) ==
